@@ -45,7 +45,13 @@ def writes(events, roots=("self",), include_params=False):
                                      ev.data.get("how", "=")))
         elif ev.kind == "mutate":
             tgt = ev.data["target"]
+            how = str(ev.data.get("how", ""))
             for (root, path) in tgt.origins:
+                if "[]" in path and not (how.startswith(".") and how.endswith("()")):
+                    # element of an untyped container: only object-style
+                    # mutations (method calls) are meaningful, array-cell
+                    # writes on a possibly copied selection are not
+                    continue
                 if root in roots or (include_params and root.startswith("p:")):
                     out.append(Write(ev, (root, path), "mutate", ev.data.get("how", "")))
     return out
